@@ -10,6 +10,26 @@ TRUST = ("rustc 1.95.0 and its diagnostics, the std derives, the hand-written dx
 
 # id -> (technique, level text, design ref, level note)
 CHECKS = {
+    "C01": ("generated programs compiled with the real proc-macro; logged ==/partial_cmp/cmp matrices checked offline against the documented rule",
+            "Held on every matrix cell of every generated type of the run (counts in evidence); exploration of a large program space, not a proof.",
+            "DESIGN.md §4 C01", "per-field primitive comparisons come from std / hand-written reference code in the same binary; " + TRUST),
+    "C02": ("acceptance read from the real expander for the full matrix; accepted types compiled, run and checked against the order/equivalence/hash laws (model-free)",
+            "Acceptance observed for all (combination, subset, placement) points; every accepted point (thorough) or all single-attribute "
+            "points plus a sample (quick) is executed and all pairs/triples checked against the laws, plus BTreeMap/HashMap key-count monitors.",
+            "DESIGN.md §4 C02", "laws only, no reference model; one shared key function; " + TRUST),
+    "C06": ("recording Hasher in generated programs; feeds compared offline with reference feeds of the effective inputs",
+            "Held on every value hashed in the run.", "DESIGN.md §4 C06", "reference feeds produced by hand-written code hashing the effective input expressions; " + TRUST),
+    "C07": ("call-recording field types; clone/clone_from/drop traces of generated programs compared offline with field-level reference traces",
+            "Held on every clone and every ordered clone_from pair observed, with a constructed==dropped conservation monitor.",
+            "DESIGN.md §4 C07", TRUST),
+    "C08": ("free term algebra + call traces in generated programs, complete over operator x form x struct shape",
+            "Every operator trait, every owned/reference form and every struct kind/arity up to 4 is executed and compared with the field-wise expectation.",
+            "DESIGN.md §4 C08", TRUST),
+    "C09": ("user impls with logging bodies and clone-recording operands, complete over operator x base form x Rhs x requested set",
+            "Every generated form of every configuration is executed; result, user-call count, clone multiset and borrowed operands compared.",
+            "DESIGN.md §4 C09", TRUST),
+    "C18": ("run-time address/TypeId/write-through observations on generated single-field structs + in-process expansion for refusals",
+            "Complete over the listed shape table.", "DESIGN.md §4 C18", TRUST),
     "C05": ("exhaustive in-process expansion of the 3136-combination matrix judged by a documented accept/reject model, cross-checked with rustc diagnostics",
             "All 94080 (combination, trait, placement, entry) points plus every supertrait-closed subset of derived traits "
             "and all misplaced arguments are expanded by the real expander and compared with the model; a sample is compiled "
